@@ -1,5 +1,5 @@
 """C02 - every pot goes to the best eligible live hand(s), in the right amounts."""
-from itertools import permutations
+from itertools import permutations, product
 
 from .. import sx, configs as C
 from ..refs import pots as P
@@ -10,7 +10,8 @@ RULE = ('tiny-deck games: every deal (all ordered assignments of the 6-card two-
         'betting/showdown history of the real State; at every terminal state the ChipsPushing totals and payoffs are '
         'compared with an independent layered pot award computed from the operation log')
 ASSUMPTIONS = ['pots nobody is eligible for while >= 2 players are live are undetermined by the statement (counted)',
-               'rake/divmod callables are configuration inputs and are used by the reference as given',
+               'a rake or divmod callable supplied by the configuration is used by the reference as given; the default split is the '
+               'reference\'s own (whole chips: builtin divmod; other chip types: exact division)',
                'JQLow / KuhnAny hand types are harness-defined through the public Hand/Lookup extension point']
 
 
@@ -77,7 +78,7 @@ class PotsMonitor:
             return
         exp, info = P.award(n, acc['contrib'], acc['pooled'], live,
                             [h if h is not None else [[None] * len(tn)] * nb for h in hands],
-                            nb, len(tn), st.divmod, lambda a: st.rake(a, st),
+                            nb, len(tn), C.DIVMODS.get(ctx.cfg.get('divmod'), P.ref_divmod), lambda a: st.rake(a, st),
                             cover=[acc['contrib'][i] + acc['front'][i] for i in range(n)])
         ctx.counters['terminals_compared'] += 1
         if exp is None:
@@ -100,7 +101,7 @@ class PotsMonitor:
             ctx.counters['split_outcomes'] += 1
         detail = (f'received {recv} expected {exp}; in pot {acc["in_pot"]} pooled antes {acc["pooled"]} live {live} '
                   f'pots {info["pots"]} hands(strength per board/type) {hands} holes {[list(map(repr, h)) for h in st.hole_cards]} boards {boards}')
-        if recv != exp:
+        if not all(P.same_chips(a, b) for a, b in zip(recv, exp)):
             shape = 'award'
             if len(tn) > 1 and sum(live) > 1:
                 for amt, elig in info['pots']:
@@ -113,9 +114,9 @@ class PotsMonitor:
             return
         for i in range(n):
             want = exp[i] - acc['in_pot'][i]
-            if st.payoffs[i] != want:
+            if not P.same_chips(st.payoffs[i], want):
                 ctx.violation('payoff', f'payoff[{i}]={st.payoffs[i]} expected {want}; {detail}', sig=(self.prop, 'payoff'))
-            if not live[i] and st.payoffs[i] != -acc['in_pot'][i]:
+            if not live[i] and not P.same_chips(st.payoffs[i], -acc['in_pot'][i]):
                 ctx.violation('dead-player-payoff', detail, sig=(self.prop, 'dead-player-payoff'))
             tot = [acc['in_pot'][j] + acc['front'][j] for j in range(n)]   # incl. a survivor's bet left in front
             cap = sum(min(tot[j], tot[i]) for j in range(n) if j != i) + (acc['pooled'] if not st.ante_trimming_status else 0)
@@ -189,6 +190,19 @@ def jobs(tier, seed):
         for plan in plans[::1 if (th or n == 2) else 3]:
             out.append(_j(f'2street-{n}p-2b-hilo-wide-deck',
                           C.custom(stacks, TWO, deck=WIDE, hand_types=('HighCardAny', 'JQLow'), antes=1, boards=2, plan=plan)))
+    # chip types other than int: a chopped pot is shared exactly (thirds of a chip, quarter chips); and a caller-supplied split
+    # rule that differs from the default (shares in whole pairs of chips) must govern every split: boards, hand types, winners
+    for chips in ('fraction', 'decimal', 'pairs'):
+        for boards, ht in ((2, ('KuhnAny', 'JQLow')), (1, ('KuhnAny',))):
+            for ranks in product('JQK', repeat=3 + boards):
+                if max(ranks.count(r) for r in 'JQK') > 3:
+                    continue
+                left = {r: list('shd') for r in 'JQK'}
+                plan = [r + left[r].pop(0) for r in ranks]
+                kw = {'divmod': 'pairs'} if chips == 'pairs' else {'chips': chips}
+                out.append(_j(f'chips-{chips}' if chips != 'pairs' else 'caller-supplied-divmod',
+                              C.custom((3, 3, 3) if boards == 2 else (2, 3, 5), TWO, deck='KUHN9', hand_types=ht, antes=1,
+                                       blinds=(1, 2), boards=boards, plan=plan, **kw), opts={'raises': 'minmax'}))
     # eight-handed stud checked down: the deck cannot supply eight seventh-street cards, the street is dealt as one community
     # card, and the pots go to the best hands made of seven own cards... plus that card (real hand types, independent evaluator)
     std = [r + u for r in '23456789TJQKA' for u in 'cdhs']
